@@ -447,3 +447,12 @@ func (p *c11) Witness(raw json.RawMessage) []core.Failure {
 	}
 	return nil
 }
+
+// Shrink: developer tool.
+func (p *c11) Shrink(tier string, seed int64, idx int, match string) string {
+	c := c11Gen(seed, idx)
+	small := shrinkSet(c.ms, func(ms *yang.ModSet) bool {
+		return errContains(ms.Texts(nil), c.ms.Features, match)
+	})
+	return textsString(small.Texts(nil))
+}
